@@ -396,6 +396,12 @@ def _sh_lower_version(sh):
     sh.server_version = (3, sh.server_version[1] - 1)
 
 
+def _sh_raise_version(sh):
+    if sh.getExtension(ExtensionType.supported_versions) is not None or sh.server_version >= (3, 3):
+        return False
+    sh.server_version = (3, sh.server_version[1] + 1)
+
+
 def _sh_sid(sh):
     if not sh.session_id:
         return False
@@ -521,6 +527,7 @@ REWRITES = {
     'sh_set_sentinel11': _sh(_sh_tail(TLS_1_1_DOWNGRADE_SENTINEL)),
     'sh_change_suite': _sh_change_suite,
     'sh_lower_version': _sh(_sh_lower_version),
+    'sh_raise_version': _sh(_sh_raise_version),
     'sh_sid': _sh(_sh_sid),
     'sh_rsl_alter': _sh(_sh_rsl_alter),
     'sh_alpn_alter': _sh_alpn_alter,
